@@ -4,7 +4,7 @@ BASE_NOTE = ("Trusted: Coq 8.16.1 kernel (vm_compute for witnesses/examples only
              "the correspondence harness (generators, exact-rational canonicalisation, observation mapping); CPython 3.12/numpy "
              "float64 semantics on the exact (dyadic) input families. The theorems are about the Gallina model; the tie to /repo/src "
              "is the correspondence run on every check (sampled, not proved). ")
-SOURCE_COMMITS = ["bc49a1c", "e3a7f92", "9ed7728", "007ee91", "c29e4c1", "17a47e5", "867807e", "949de5f", "5cc174a", "d64e197", "df761a4", "5d29398", "7a3c11a", "0a21c22", "aeeccf6", "59481a8", "b5aca95", "679700e", "ca2559c", "e1a34e7", "3b48309", "af04624", "d811d2c", "621ca2a", "dac1774", "93d477c", "102736c", "02123fe", "911bb12", "3ef9ffd", "15e9860", "9b7c6c3", "10af766", "15aa013"]   # "fix:" commits only (no guarded hooks exist)
+SOURCE_COMMITS = ["bc49a1c", "e3a7f92", "9ed7728", "007ee91", "c29e4c1", "17a47e5", "867807e", "949de5f", "5cc174a", "d64e197", "df761a4", "5d29398", "7a3c11a", "0a21c22", "aeeccf6", "59481a8", "b5aca95", "679700e", "ca2559c", "e1a34e7", "3b48309", "af04624", "d811d2c", "621ca2a", "dac1774", "93d477c", "102736c", "02123fe", "911bb12", "3ef9ffd", "15e9860", "9b7c6c3", "10af766", "15aa013", "cad1090", "07de623", "4bf9c77", "9c0254b", "b710d24"]   # "fix:" commits only (no guarded hooks exist)
 NOTES = ("Every check: (1) rebuilds the Coq development incrementally and re-checks coq/Props/<id>.v (grep gate for Admitted/Axiom/...); "
          "(2) runs physt from /repo/src and the extracted model on the same seeded cases; (3) applies the extracted check_<id> to the "
          "implementation's observation. VIOLATION lines carry a replay file; 'no-failing-input-found' is appended when only the "
@@ -100,6 +100,19 @@ CLAIMED = {
         "tolist/asarray, packaging.version parsing (its parsed components are the model's input). includes_right_edge / align of "
         "binnings and Statistics are not part of the documents (not named by the property; observed but not judged). "
         "Finding F27 (float128 cannot be serialised) is listed in known_findings.json."),
+ "C15": dict(
+   technique="Coq proofs that the inverse formulas determine the coordinates (norm, uniqueness), reuse of the proved find-bin and marginal specifications + extracted toleranced predicate applied to every coordinate and every entry path of physt",
+   text=("Theorems: coordinates (r >= 0, unit direction) that reproduce a point satisfy r^2 = x^2+y^2(+z^2) and are unique "
+         "(direction for r > 0); the searchsorted lookup equals the containing-bin specification for every rising binning; a "
+         "projection cell is the sum of the parent cells agreeing on the kept axes. For every generated point set and class the "
+         "extracted predicate checks the coordinates returned by Class.transform (array, single point, float32 / list input) "
+         "against the inverse formulas with ranges r >= 0, phi in [0, 2 pi], theta in [0, pi], z unchanged (cos / sin of the "
+         "returned angles from numpy, 1e-9 relative), then demands that find_bin, find_bin(transformed), fill, "
+         "fill(transformed), fill_n, fill_n(transformed), the facade and the facade(transformed) all equal the model placement "
+         "of those coordinates, that every projection has the mapped class and the marginal contents, and that wrong input "
+         "dimensions are refused by transform / find_bin / fill / fill_n."),
+   note=BASE_NOTE + "numpy hypot / arctan2 / cos / sin are trusted numerics (the check is of physt's use of them); points exactly on "
+        "inner bin edges are not generated on purpose (edges are random doubles), the last-edge convention is the binning's."),
  "C19": dict(
    technique="Coq proofs over a per-context binding + token-stack model (restoration for every balanced body and on raise, isolation by induction over schedules, spawn snapshot) + extracted-model correspondence under forced interleavings of real threads / asyncio tasks",
    text=("Theorems: enter/exit restores the previous value and nesting for EVERY balanced body (nested blocks, assignments inside, "
